@@ -80,6 +80,10 @@ func c08Step(x *engine.Exec) []engine.Failure {
 				f.Oracle = "incomplete-slash"
 				f.Cause = abortCause
 				out = append(out, f)
+			} else if f.Oracle == "unbonding-slash" {
+				// a callback that returns nil but left a pending unbonding of the validator unslashed is not complete either
+				f.Oracle = "incomplete-slash"
+				out = append(out, f)
 			}
 		}
 		// bonded positions of the slashed validator must have lost value relative to others (validator shares cut)
